@@ -74,6 +74,9 @@ def names(node, out, calls=None):
     if isinstance(node, F.Name):
         out.append(str(node).lower())
         return
+    if isinstance(node, F.Function_Reference) and isinstance(node.items[0], F.Name) \
+            and str(node.items[0]).lower() == "null" and node.items[1] is None:
+        return      # "=> null()": fparser2 does not mark it intrinsic in a declaration
     if isinstance(node, (F.Actual_Arg_Spec, F.Component_Spec)):
         names(node.items[1], out, calls)
         return
